@@ -345,7 +345,7 @@ def c18_unify(a: I3, b: I3, order: int) -> bool:
     """
     pre: pinned(a0=a[0], a1=a[1], b0=b[0], b1=b[1], order=order)
     pre: idx_ok(a, thorough()) and idx_ok(b, False) and 0 <= order < 4
-    pre: (order == 0 or order == 3) if thorough() else (order == 0 or order == 2)
+    pre: (order == 0 or (100 * a[0] + 10 * a[1] + a[2]) < NQ) if thorough() else (order == 0 or order == 2)
     post: _
     """
     ia, ib = idx_of(a), idx_of(b)
@@ -357,6 +357,7 @@ def c18_unify_text(a: I3, b: I3, order: int, style: int) -> bool:
     """
     pre: pinned(a0=a[0], a1=a[1], b0=b[0], b1=b[1], order=order, style=style)
     pre: idx_ok(a, False) and idx_ok(b, False) and 0 <= order < 4 and 0 <= style < 2
+    pre: 10 * a[1] + a[2] <= 10 * b[1] + b[2]
     pre: thorough() or (order == 0 and style == 1)
     post: _
     """
@@ -811,7 +812,7 @@ def _shards_unify(tier):
 
 def _shards_unify_text(tier):
     if tier == "quick":
-        return [dict(a0=0, a1=x, b0=0, b1=y, style=1, order=0) for x in range(7) for y in range(7)]
+        return [dict(a0=0, a1=x, b0=0, b1=y, style=1, order=0) for x in range(7) for y in range(x, 7)]
     return [dict(a0=0, a1=x, b0=0, style=s, order=o) for x in range(7) for s in range(2) for o in range(4)]
 
 
@@ -862,39 +863,53 @@ _FAM_Q = ("structures over f, g: each absent / unspecified / atom in {'1','2'} /
 _FAM_T = ("structures over f, g: each absent / unspecified / atom / nested over inner features h, k "
           "(each absent / unspecified / atom), at most one sharing between two equally described positions, "
           "plus atomic roots (735 structures)")
+_UNIFY_CHECKS = ("; per pair: a.unify(b) and, on copies taken before, b.unify(a): success iff the oracle finds no atom "
+                 "clash, receiver = glb (canonical form), both orders agree, get_all_paths = maximal paths of the glb, "
+                 "failure = FeatureStructuresNotCompatibleException; type-inconsistent and cyclic pairs assumed away")
+_TPL = "7 grammar templates (agreement, chain, epsilon, ambiguity, left recursion, alternatives, lexical ambiguity)"
 
 CONDS = [
     Cond("C18", c18_unify, _shards_unify,
          {"quick": "all ordered pairs of " + _FAM_Q + " built with FeatureStructure()/add_content/add_content_path; "
-                   "insertion order of the argument's features both ways; type-inconsistent and cyclic pairs assumed away",
-          "thorough": "all ordered pairs (X, Y) and (Y, X) with X from " + _FAM_T + " and Y from the 66-structure "
-                      "family; all four feature insertion orders"},
+                   "insertion order of the argument's features both ways" + _UNIFY_CHECKS,
+          "thorough": "all pairs (X, Y), X from " + _FAM_T + ", Y from the 66-structure family (the reversed "
+                      "direction is the second unification of every pair); all four feature insertion orders when X is "
+                      "in the 66-structure family, f-before-g otherwise"},
          FS_FUNCS, "both structures have at least one feature"),
     Cond("C18", c18_unify_text, _shards_unify_text,
-         {"quick": "all ordered pairs of the 66-structure family, both built by FeatureStructure.from_text from a "
-                   "rendered text (sharing of an unspecified value written as a variable ?x, other sharing as (1) references)",
-          "thorough": "same pairs x 16 text styles (variable/reference sharing, '='/'->', '?u'/'[]' for unspecified, "
-                      "', '/',') x 4 feature orders"},
+         {"quick": "all unordered pairs of the 66-structure family (both directions unified), both built by "
+                   "FeatureStructure.from_text from a rendered text, sharing of an unspecified value written as a "
+                   "variable ?x (a forwarded node), other sharing as (1) references",
+          "thorough": "same pairs x sharing written as variable or as reference x 4 feature orders"},
          FS_FUNCS, "both structures have at least one feature"),
     Cond("C18", c18_from_text, _shards_from_text,
-         {"quick": "every structure of the 66-structure family x 16 text styles x 2 feature orders: from_text(text) "
-                   "and the constructor-built structure both equal the described structure",
-          "thorough": "every structure of the 735-structure family x 16 styles x 2 orders"},
+         {"quick": "every structure of the 66-structure family x 16 text styles (variable/reference sharing, '='/'->', "
+                   "'?u'/'[]' for unspecified, ', '/',') x 2 feature orders: from_text(text) and the constructor-built "
+                   "structure both equal the described structure",
+          "thorough": "every structure of the 735-structure family x 16 styles (x 2 orders on the 66-structure family)"},
          FS_FUNCS, "structure has at least two non-root nodes"),
     Cond("C18", c18_from_text_str, _shards_str,
-         {"quick": "one symbolic str, len <= 3 over 'fg=12, ' through from_text; judged on the well-formed flat subset",
+         {"quick": "one symbolic str, len <= 3 over 'fg=12, ' through from_text; judged on the well-formed flat subset "
+                   "name=atom(,name=atom)*",
           "thorough": "len <= 4"},
          FS_FUNCS, "text is in the well-formed flat subset", per_path_timeout=120),
     Cond("C18", c18_fcfg, _shards_fcfg,
-         {"quick": "6 grammar templates (agreement, chain, epsilon, ambiguity, left recursion, alternatives) x 4 symbolic feature "
-                   "annotations over {none, N=s, N=?x} (N=p fixed in the lexicon) x all words over {a,b} of length <= 2 "
-                   "(<= 3 for left recursion) x construction by FCFG.from_text / by FeatureProduction objects",
-          "thorough": "annotations over {none, N=s, N=p, N=?x}; words of length <= 3; also from_text with '|' alternatives"},
+         {"quick": _TPL + " x 4 symbolic feature annotations over {none, N=s, N=?x} (N=p fixed in the lexicon; epsilon "
+                   "template: 2 symbolic annotations) x all words over {a,b} of the template's characteristic lengths "
+                   "(1-2) x construction by FCFG.from_text (lexical ambiguity: by FeatureProduction objects); each "
+                   "grammar object is queried twice (symbolic word, then a fixed probe word)",
+          "thorough": _TPL + " x annotations over {none, N=s, N=p, N=?x} (from_text) / {none, s, ?x} (FeatureProduction "
+                      "objects) x all words up to the characteristic length (3 for left recursion); from_text with "
+                      "'|' alternatives for the ambiguity and alternatives templates"},
          FCFG_FUNCS, "the feature-free grammar derives the word (so the features decide)"),
     Cond("C18", c18_plain, _shards_plain,
-         {"quick": "feature-free FCFG with productions S -> b0, A -> b1, bodies of <= 2 symbols over {S,A,a,b} "
-                   "(epsilon included) x words of length <= 2 over {a,b} x from_text / FeatureProduction construction; "
-                   "compared with the membership oracle and with CFG.contains",
-          "thorough": "S -> b0, (S|A) -> b1, optional third production (S|A) -> b2; words of length <= 3"},
-         FCFG_FUNCS + ["CFG.contains"], "the grammar derives some word of length <= 3"),
+         {"quick": "feature-free FCFG (FeatureProduction objects) over variables S, A and terminals a, b, bodies of <= 2 "
+                   "symbols, epsilon included: S -> b0 with A -> b1 (|b1| <= 1) or S -> b1 (epsilon, a, b), words <= 2; "
+                   "and S -> b0, A -> b1, S -> b2 with |b0| = |b1| = 2, A in b0, S in b1, b2 in {a, b}, words of length 2; "
+                   "compared with the membership oracle and (natively) with CFG.contains",
+          "thorough": "S -> b0, (S|A) -> b1, all 21 x 21 bodies, words <= 2 (from_text); S -> b0, A -> b1, S -> b2 with "
+                      "|b0| = 2, A in b0, any b1, b2 in {epsilon, a, b}, words <= 3 (FeatureProduction objects)"},
+         FCFG_FUNCS + ["CFG.contains (second reference, native)"], "the grammar derives some word of length <= 3",
+         assumptions=["feature grammars: one atomic-valued feature N over the value domain {s, p}; the reference "
+                      "instantiates every variable and every unannotated occurrence with every value"]),
 ]
